@@ -146,7 +146,8 @@ def r14_3(ctx, fx):
         ctx.anchor("R14.3", "KBucket::entry: Vacant aggregates", len(vac), 2, cfg=fx.cfg)
         ctx.anchor("R14.3", "KBucket::entry: Occupied aggregates", len(occ), 1, cfg=fx.cfg)
         conn_sw = [sw for sw in fn.discr_switches() if sw[2] and sw[2].endswith("ConnectionType") and "".join(map(str, sw[1][1:])).endswith(".connection")]
-        ctx.anchor("R14.3", "KBucket::entry: switch on nodes[i].connection", len(conn_sw), 1, cfg=fx.cfg)
+        conn_eq = [c for c in fn.calls(r"::eq$") if "ConnectionType" in c.name]
+        ctx.anchor("R14.3", "KBucket::entry: switch on nodes[i].connection", len(conn_sw) + len(conn_eq), 1, cfg=fx.cfg)
         n_evict = 0
         for node, s_ in slots:
             f_ = dict(zip(s_["rv"].get("fields", []), s_["rv"]["ops"]))
@@ -173,6 +174,43 @@ def r14_3(ctx, fx):
                 if fn.only_via(node, sw[0], allowed) and not bad_vars:
                     ok = True
                 why = "allowed edges %s, shared with Connected/CanConnect: %s" % (allowed, bad_vars)
+            if not ok:
+                # the same test spelled `c == NotConnected || c == CannotConnect` on (a copy of) nodes[i].connection
+                allowed_eq = set()
+                for c in fn.calls(r"::eq$"):
+                    if len(c.args) != 2 or not c.dest:
+                        continue
+                    var = None
+                    other = None
+                    for a, b in ((c.args[0], c.args[1]), (c.args[1], c.args[0])):
+                        rs = fn.roots(a)
+                        sh = {x.lstrip("&") for x in fn.shape(a)}
+                        if (rs and all(r[0] == "const" and re.search(r"ConnectionType::(NotConnected|CannotConnect)$", r[1]) for r in rs)) or \
+                                (sh and sh <= {"NotConnected", "CannotConnect"}):
+                            var, other = a, b
+                    if other is None:
+                        continue
+                    # the other operand is nodes[i].connection for the slot's index
+                    linked = False
+                    from common import ref_local
+                    cand = set(slice_locals(fn, other))
+                    rl_ = ref_local(fn, other)
+                    if rl_ is not None:
+                        cand |= slice_locals(fn, {"c": [rl_]})
+                    for l in cand:
+                        for n_, k_, p_ in fn.defs().get(l, []):
+                            if k_ == "assign" and p_["rv"]["r"] in ("use", "ref"):
+                                q = (p_["rv"].get("o") or {}).get("c") or (p_["rv"].get("o") or {}).get("m") or p_["rv"].get("p")
+                                if q and "".join(map(str, q[1:])).endswith(".connection"):
+                                    pr_, il_ = _index_local(fn, {"c": [q[0]]})
+                                    if pr_ is not None and (il_ & idxl):
+                                        linked = True
+                    if linked:
+                        for sw_, t_, f_2 in fn.bool_tests(c.dest[0]):
+                            allowed_eq.add((sw_, t_))
+                if allowed_eq and node not in fn.reach([fn.entry], cut=allowed_eq):
+                    ok = True
+                    why = "behind `== NotConnected || == CannotConnect` on the same element"
             ctx.ob("R14.3", "KBucket::entry/replace-slot#%d-only-for-a-NotConnected|CannotConnect-entry" % n_evict, ok, site=fn.site(node), cfg=fx.cfg,
                    detail="a connected peer is never displaced: " + why)
         ctx.anchor("R14.3", "KBucket::entry: replace slots", n_evict, 1, cfg=fx.cfg)
@@ -272,7 +310,16 @@ def r14_4(ctx, fx):
             nb = v.get("v")
     ctx.ob("R14.4", "NUM_BUCKETS==256", nb == 256, cfg=fx.cfg, detail="evaluated constant: %s" % nb)
     fn = ctx.fn(fx, RT + "BucketIndex::new", "R14.4")
-    cl = ctx.fn(fx, RT + "BucketIndex::new::{closure#0}", "R14.4")
+    cl = ctx.fn(fx, RT + "BucketIndex::new::{closure#0}", "R14.4", required=False)
+    if fn is not None and cl is None:
+        # `ilog2().map(BucketIndex)` spelled as a match: the Some payload of ilog2 goes into the BucketIndex aggregate unmodified
+        rs = guards.rootstrs(fn, {"c": [0]})
+        ok = any(x.endswith("Distance::ilog2") for x in rs) and "param:_1*" in rs and not any(x.startswith("const:") and not x.startswith("const:fn") and not x.endswith("Option::None") for x in rs)
+        ctx.ob("R14.4", "BucketIndex::new/is-ilog2-of-the-distance", ok, site=fn.site(fn.entry), cfg=fx.cfg, detail="roots: %s" % sorted(rs))
+        arith = [fn.site(n) for n, s in fn.assigns() if s["rv"]["r"] in ("bin", "un")]
+        aggs = [s for n, s in fn.aggregates(r"routing_table::BucketIndex$")]
+        okw = bool(aggs) and not arith and all(any(x.endswith("Distance::ilog2") for x in guards.rootstrs(fn, s["rv"]["ops"][0])) for s in aggs)
+        ctx.ob("R14.4", "BucketIndex::new/closure-wraps-ilog2-unmodified", okw, site=fn.site(fn.entry), cfg=fx.cfg, detail="arithmetic: %s" % arith)
     if fn is not None and cl is not None:
         rs = guards.rootstrs(fn, {"c": [0]})
         ok = any(x.endswith("Distance::ilog2") for x in rs) and "param:_1*" in rs and not any(x.startswith("const:") and "closure" not in x and not x.startswith("const:fn") for x in rs)
@@ -285,6 +332,12 @@ def r14_4(ctx, fx):
     if fn is not None:
         rng = [s for n, s in fn.assigns() if s["rv"]["r"] == "agg" and s["rv"]["adt"].endswith("ops::Range")]
         ok = any(any(("const", k) in fn.roots(o) for k in fx.consts if k.endswith("NUM_BUCKETS")) or fn.const_value(o) == 256 for s in rng for o in s["rv"]["ops"][1:])
+        if not ok:
+            # `repeat_with(KBucket::new).take(NUM_BUCKETS)` / `vec![..; NUM_BUCKETS]`
+            for c in fn.calls(r"Iterator::take$|vec::from_elem$"):
+                o = c.args[1] if len(c.args) > 1 else None
+                if o is not None and (any(("const", k) in fn.roots(o) for k in fx.consts if k.endswith("NUM_BUCKETS")) or fn.const_value(o) == 256):
+                    ok = True
         ctx.ob("R14.4", "RoutingTable::new/creates-NUM_BUCKETS-buckets", ok, site=fn.site(fn.entry), cfg=fx.cfg,
                detail="range aggregates: %d" % len(rng))
 
@@ -300,9 +353,18 @@ def r14_5(ctx, fx):
     ctx.ob("R14.5", "closest_iter/filter-keeps-peers-with-addresses", ok, site=c1.site(c1.entry), cfg=fx.cfg, detail=str(rets))
     d = [c for c in c0.calls(r"Key::distance$") if c.dest == [0]]
     ok = len(d) == 1 and "target" in c0.origin(d[0].args[0]) and c0.origin(d[0].args[1]).endswith(".key")
+    srt_by = fn.calls(r"sort(_unstable)?_by$")
+    if not ok and srt_by:
+        # `sort_by(|a, b| target.distance(&a.key).cmp(&target.distance(&b.key)))`: ascending in the same key
+        ds = c0.calls(r"Key::distance$")
+        cm = [c for c in c0.calls(r"::cmp$") if c.dest == [0]]
+        if len(ds) == 2 and len(cm) == 1 and all("target" in c0.origin(x.args[0]) and c0.origin(x.args[1]).endswith(".key") for x in ds):
+            first = {x.split(":", 1)[1] for x in guards.rootstrs(c0, cm[0].args[0]) if x.startswith("param:")}
+            second = {x.split(":", 1)[1] for x in guards.rootstrs(c0, cm[0].args[1]) if x.startswith("param:")}
+            ok = any(x.startswith("_2") for x in first) and not any(x.startswith("_3") for x in first) and any(x.startswith("_3") for x in second) and not any(x.startswith("_2") for x in second)
     ctx.ob("R14.5", "closest_iter/sort-key-is-target.distance(peer.key)", ok, site=c0.site(c0.entry), cfg=fx.cfg,
            detail="distance calls: %s" % [(c0.origin(c.args[0]), c0.origin(c.args[1])) for c in d])
-    srt = fn.calls(r"sort_by_key$|sort_by_cached_key$|sort_unstable_by_key$")
+    srt = fn.calls(r"sort_by_key$|sort_by_cached_key$|sort_unstable_by_key$") or srt_by
     flt = fn.calls(r"Iterator::filter$")
     ctx.anchor("R14.5", "closest_iter: sort_by_key + filter", min(len(srt), len(flt)), 1, cfg=fx.cfg)
     if srt and flt:
